@@ -36,9 +36,21 @@ pub fn type_to_tokens(ty: &ASN1Type) -> String {
             .join(" | "),
         ASN1Type::Choice(c) => format_choice_options(c),
         ASN1Type::Set(se) | ASN1Type::Sequence(se) => format_sequence_or_set_members(se),
-        ASN1Type::SetOf(s) | ASN1Type::SequenceOf(s) => type_to_tokens(&s.element_type) + "[]",
+        ASN1Type::SetOf(s) | ASN1Type::SequenceOf(s) => {
+            array_type(&type_to_tokens(&s.element_type))
+        }
         ASN1Type::ElsewhereDeclaredType(e) => to_jer_identifier(&e.identifier),
         _ => String::from("any"),
+    }
+}
+
+/// Formats an array of `element_type`. Union types need parentheses, because
+/// `A | B[]` is an `A` or an array of `B`s.
+pub fn array_type(element_type: &str) -> String {
+    if element_type.contains(" | ") {
+        format!("({element_type})[]")
+    } else {
+        format!("{element_type}[]")
     }
 }
 
